@@ -86,6 +86,13 @@ func (r *FakeRedis) KillConns() {
 	r.mu.Unlock()
 }
 
+// OpenConns returns the number of client connections that are open right now.
+func (r *FakeRedis) OpenConns() int {
+	r.mu.Lock()
+	defer r.mu.Unlock()
+	return len(r.conns)
+}
+
 // Log returns a copy of the GET / SET log.
 func (r *FakeRedis) Log() []RedisOp {
 	r.mu.Lock()
